@@ -139,6 +139,8 @@ func raceFamilies(c *mon.Ctx) {
 		cb.SetReadDeadline(dl)
 		ca.SetHooks(memconn.Hooks{BeforeRead: fragHook(r.Fork())})
 		cb.SetHooks(memconn.Hooks{BeforeRead: fragHook(r.Fork())})
+		// handshake phase: one goroutine per end, so mutual waiting is an exact deadlock verdict
+		ca.SetDeadlockDetection(true)
 		res := make(chan raceResult, 4)
 		closeAll := func() { ca.Close(); cb.Close() }
 		report := func(n int) bool {
@@ -188,6 +190,7 @@ func raceFamilies(c *mon.Ctx) {
 				k.Failf("concurrent:real-real:handshake", "initiator: %v, responder: %v", errs[0], errs[1])
 				return
 			}
+			ca.SetDeadlockDetection(false) // from here on each end has a sender and a receiver goroutine
 			ca.SetNonBlocking(false)
 			cb.SetNonBlocking(false)
 			go realSendLoop(a, si, cb, "initiator-send", res)
@@ -248,6 +251,7 @@ func raceFamilies(c *mon.Ctx) {
 			}
 			// the real peer's direction is also checked byte for byte against the specification
 			shadow := ep.Recv.Clone()
+			ca.SetDeadlockDetection(false)
 			ca.SetNonBlocking(false)
 			cb.SetNonBlocking(false)
 			go realSendLoop(p, fromReal, cb, "real-send", res)
